@@ -85,13 +85,21 @@ func TestVerifRealSinks(t *testing.T) {
 		panicMsg := ""
 		hot, id := false, 0
 		broken := false
+		sinceBad := 1000 // steps since the last bad frame
+		afterBad := false
 		func() {
 			defer func() {
 				if p := recover(); p != nil {
 					panicMsg = fmt.Sprint(p)
+					afterBad = sinceBad <= 1 // the bad frame itself or the very next frame
 				}
 			}()
 			for _, st := range sc.Steps {
+				if st.A == "bad" {
+					sinceBad = 0
+				} else if st.A == "frame" {
+					sinceBad++
+				}
 				switch st.A {
 				case "breakdir":
 					if !broken {
@@ -130,6 +138,7 @@ func TestVerifRealSinks(t *testing.T) {
 		// the last motion recording that was completed
 		files := veList(dir)
 		var lastIds []int
+		allIds := [][]int{}
 		undec := 0
 		names := []string{}
 		for _, f := range files {
@@ -139,11 +148,12 @@ func TestVerifRealSinks(t *testing.T) {
 					undec++
 				} else if ids, ok := f["ids"].([]int); ok && len(ids) > 0 {
 					lastIds = ids
+					allIds = append(allIds, ids)
 				}
 			}
 		}
 		sort.Strings(names)
 		enc.Encode(map[string]interface{}{"ev": "realsinks", "script": si, "panic": panicMsg, "undecodable": undec,
-			"frames": id, "last": lastIds, "N": sc.Preview*sc.Fps + sc.Trig, "MinF": sc.Min * sc.Fps, "files": len(files)})
+			"frames": id, "last": lastIds, "N": sc.Preview*sc.Fps + sc.Trig, "MinF": sc.Min * sc.Fps, "files": len(files), "all": allIds, "after_bad": afterBad})
 	}
 }
